@@ -41,7 +41,7 @@ func IsEditOp(op string) bool {
 	switch op {
 	case "rootset", "rootdel", "oset", "odel", "onest", "replObj", "replArr", "replText",
 		"aadd", "ains", "adel", "amove", "amovefront", "aset", "tedit", "tstyle", "cinc",
-		"trtext", "trins", "trdel", "trstyle", "undo", "redo", "pset", "pclear", "pmix", "rootclear", "multi":
+		"trtext", "trins", "trdel", "trstyle", "undo", "redo", "pset", "pclear", "pmix", "pmixh", "rootclear", "multi":
 		return true
 	}
 	return false
@@ -129,6 +129,19 @@ func editIn(r *json.Object, p *presence.Presence, s Step) (desc string, err erro
 			r.SetInteger([]string{"k0", "k1"}[s.C%2], s.B)
 			p.Set(k, v)
 			desc = fmt.Sprintf("root.k%d=%d + presence.%s=%s (one update)", s.C%2, s.B, k, v)
+		case "pmixh":
+			// one Update that appends to the array AND sets an UNDOABLE presence
+			// key (presence.WithHistory): its undo entry is mixed - a Remove of
+			// the element and a presence restore
+			k := []string{"cursor", "name"}[s.A%2]
+			v := fmt.Sprintf("h%d", s.B)
+			a := r.GetArray("a")
+			if a == nil {
+				a = r.SetNewArray("a")
+			}
+			a.AddInteger(s.C*10 + s.B)
+			p.Set(k, v, presence.WithHistory())
+			desc = fmt.Sprintf("a.add %d + presence.%s=%s (undoable, one update)", s.C*10+s.B, k, v)
 		case "pclear":
 			p.Clear()
 			desc = "presence.clear"
